@@ -13,7 +13,7 @@ IMPORTS = P.IMPORTS
 CASE_TYPE = 'case'
 CHECK_FN = 'check_case'
 ANCHOR_FILES = P.ANCHOR_FILES
-SHARD = 60
+SHARD = 20
 RULE = ('cases = (a) credential decisions: the real AuthPlugin.before_upstream_connection on a request parsed by the real '
         'HttpParser, header value = the valid "Basic <code>" or a near miss (absent, other scheme, truncated/extended/'
         're-encoded/re-cased token, parameters, trailing garbage, tabs and runs of blanks, duplicated header lines in both '
